@@ -65,7 +65,7 @@ pub fn gen_wire(rng: &mut Rng, w: &World, foreign: &NamespaceSecret, now: u64) -
     let base = sign(&w.ns, &w.authors[au], &key, hash, len, ts);
     let sibling = sign(&w.ns, &w.authors[au], &gen_key(rng), HASH_B, 2, ts + 1);
     let mut t = base.clone();
-    let kind = match rng.below(20) {
+    let kind = match rng.below(21) {
         0..=5 => "valid",
         6 => { t.author_sig[rng.below(64) as usize] ^= 1 << rng.below(8); "flip_author_sig" }
         7 => { t.ns_sig[rng.below(64) as usize] ^= 1 << rng.below(8); "flip_ns_sig" }
@@ -105,6 +105,13 @@ pub fn gen_wire(rng: &mut Rng, w: &World, foreign: &NamespaceSecret, now: u64) -
         16 => { t = sign(&w.ns, &w.authors[au], &key, empty_hash(), 1 + rng.below(3), ts); "empty_hash_nonzero_len" }
         17 => { t = sign(&w.ns, &w.authors[au], &key, HASH_A, 0, ts); "zero_len_nonempty_hash" }
         18 => { let n = rng.below(64) as usize; t.id.truncate(n); "short_id" }
+        19 => {
+            // far beyond the bound: the ends of the u64 range and both sides of the sign bit
+            let far = *rng.pick(&[u64::MAX, u64::MAX - 1, 1u64 << 63, (1u64 << 63) - 1, (1u64 << 63) + (1u64 << 62),
+                                  (1u64 << 63) + now + MAXF + 1, now + (1u64 << 40), u64::MAX - now, now.wrapping_add(MAXF).wrapping_add(1u64 << 32)]);
+            t = sign(&w.ns, &w.authors[au], &key, hash, len, far);
+            "far_future"
+        }
         _ => { t.ts = 0; t = sign(&w.ns, &w.authors[au], &key, hash, len, 0); "ts_zero" }
     };
     Tamper { w: t, kind }
@@ -183,12 +190,18 @@ pub fn run(seed: u64, n: usize, out: &Path, _thorough: bool) -> anyhow::Result<(
                     } else {
                         let e = decode_signed_entry(&bytes).expect("well-formed wire entry");
                         let ok = sig_ok(&t.w);
-                        let r = rt.block_on(replica.insert_remote_entry(e, FROM, ContentStatus::Missing));
-                        if ok && r.is_ok() { interesting = true; }
-                        step = format!("(Remote {} {} {} {})", cwentry(&t.w), cbool(ok), now, cresult(&r));
+                        let res = std::panic::catch_unwind(std::panic::AssertUnwindSafe(|| {
+                            rt.block_on(replica.insert_remote_entry(e, FROM, ContentStatus::Missing))
+                        }));
+                        let (r_ok, r) = match &res {
+                            Ok(r) => (r.is_ok(), cresult(r)),
+                            Err(_) => { stats.inc("panics"); crashed = true; (false, "(Err EPanic)".to_string()) }
+                        };
+                        if ok && r_ok { interesting = true; }
+                        step = format!("(Remote {} {} {} {})", cwentry(&t.w), cbool(ok), now, r);
                         jstep = format!(
                             "{{\"insert_remote\":\"{}\",\"key\":\"{}\",\"ts\":{},\"len\":{},\"hash\":\"{}\",\"sig_ok\":{},\"now\":{},\"result\":\"{}\"}}",
-                            t.kind, hex::encode(&t.w.id[64..]), t.w.ts, t.w.len, hex::encode(&t.w.hash[..4]), ok, now, cresult(&r)
+                            t.kind, hex::encode(&t.w.id[64..]), t.w.ts, t.w.len, hex::encode(&t.w.hash[..4]), ok, now, r
                         );
                     }
                 } else {
